@@ -52,7 +52,7 @@ theorem xmitOne_eq (now resent : U32) (wnd : BitVec 16) (una : U32) (newSegs : N
 /-! ### simulation -/
 
 theorem emit_sim {σ : Sigma} {f f' : Fl} (h : FlSim σ f f') {s s' : Seg} (hr : SndRel σ s s')
-    (hts : s'.ts = s.ts + σ.t) (huna : s'.una = s.una + σ.b) : FlSim σ (emit f s) (emit f' s') := by
+    (huna : s'.una = s.una + σ.b) : FlSim σ (emit f s) (emit f' s') := by
   unfold emit
   simp only []
   rw [hr.data]
@@ -62,7 +62,7 @@ theorem emit_sim {σ : Sigma} {f f' : Fl} (h : FlSim σ f f') {s s' : Seg} (hr :
       ((f'.makeSpace (IKCP_OVERHEAD + s.data.length)).putHdr
         (encodeHdr s'.conv s'.cmd s'.frg s'.wnd s'.ts s'.sn s'.una s.data.length)) := by
     apply putHdr_sim h1
-    rw [hr.conv, hr.cmd, hr.frg, hr.wnd, hts, hr.sn, huna]
+    rw [hr.conv, hr.cmd, hr.frg, hr.wnd, hr.ts, hr.sn, huna]
     exact OutRel.seg _ _ _ _ _ _ _ _ h1.cur
   have h3 := putData_sim h2 s.data
   generalize ((f.makeSpace (IKCP_OVERHEAD + s.data.length)).putHdr
@@ -115,7 +115,7 @@ theorem stamp_sim {σ : Sigma} {s s' : Seg} (hr : SndRel σ s s') (now : U32) (w
     (b : Bool) : SndRel σ (stamp now wnd una b s) (stamp (now + σ.t) wnd (una + σ.b) b s') := by
   cases b
   · exact hr
-  · exact { hr with xmit := congrArg (· + 1) hr.xmit, ts := fun _ => rfl, wnd := rfl, una := fun _ => rfl }
+  · exact { hr with xmit := congrArg (· + 1) hr.xmit, ts := rfl, wnd := rfl, una := fun _ => rfl }
 
 structure XSim (σ : Sigma) (x x' : XmitSt) : Prop where
   f      : FlSim σ x.f x'.f
@@ -151,7 +151,6 @@ theorem xmitOne_sim {σ : Sigma} {st st' : XmitSt} (h : XSim σ st st') {s s' : 
   · simp only [if_true]
     apply emit_sim h.f
     · rw [← hb]; exact hs
-    · simp only [stamp, if_true]
     · simp only [stamp, if_true]
 
 theorem xmitFold_sim {σ : Sigma} {l l' : List Seg} (hl : All₂ (SndRel σ) l l') {st st' : XmitSt}
